@@ -94,10 +94,11 @@ package main
 
 //@ contract group
 //@   requires noNilPrograms(reports)
-//@   loop 1: invariant result != nil
-//@   loop 2: invariant result != nil
-//@   loop 3: invariant result != nil && p != nil
-//@   modifies nothing
+//@   ensures dataOK(result)
+//@   loop 1: invariant dataOK(result)
+//@   loop 2: invariant dataOK(result)
+//@   loop 3: invariant dataOK(result) && p != nil
+//@   modifies maps(weekName, map[programName]map[graphName]map[bucketName]map[reportID]int64), maps(programName, map[graphName]map[bucketName]map[reportID]int64), maps(graphName, map[bucketName]map[reportID]int64), maps(bucketName, map[reportID]int64), maps(reportID, int64)
 
 // A data value is well formed when no nested map that is present is nil.
 //@ predicate dataOK(d): d != nil && (forall w weekName :: in(w, d) ==> d[w] != nil) && (forall w weekName, p programName :: in(w, d) && in(p, d[w]) ==> d[w][p] != nil) && (forall w weekName, p programName, g graphName :: in(w, d) && in(p, d[w]) && in(g, d[w][p]) ==> d[w][p][g] != nil) && (forall w weekName, p programName, g graphName, b bucketName :: in(w, d) && in(p, d[w]) && in(g, d[w][p]) && in(b, d[w][p][g]) ==> d[w][p][g][b] != nil)
